@@ -184,6 +184,13 @@ func genC03(g *Gen, in Inst, tier string) []HarnessSrc {
 		ndo(T, "x", smallOpt(in)), ndo(T, "y", smallOpt(in)), ndo(T, "z", smallOpt(in)), cmp, cmp, cmp)))
 	out = append(out, h("VX_C03_curried_"+in.ID, "curried", fmt.Sprintf(
 		"\tx := %s\n\ty := %s\n\tvx.Assert(%sC(x)(y) == %s(x, y), \"curried form agrees\")\n", ndo(T, "x", recMapOpt(in)), ndo(T, "y", recMapOpt(in)), cmp, cmp)))
+	// maps: one entry each, equal values, different keys = a single differing leaf: ordered by the keys (ordered by <)
+	if T.K == "map" && T.Key.K == "basic" && T.Key.Name != "bool" && !strings.HasPrefix(T.Key.Name, "complex") {
+		out = append(out, h("VX_C03_mapkey_"+in.ID, "mapkey", fmt.Sprintf(
+			"\tx := %s\n\ty := %s\n\tvx.Assume(len(x) == 1 && len(y) == 1)\n\tvar kx, ky %s\n\tfor k := range x {\n\t\tkx = k\n\t}\n\tfor k := range y {\n\t\tky = k\n\t}\n\tvx.Assume(kx != ky && %s(x[kx], y[ky]))\n"+
+				"\twant := 1\n\tif kx < ky {\n\t\twant = -1\n\t}\n\tvx.Assert(%s(x, y) == want, \"one entry each, different keys: ordered by the keys\")\n",
+			ndo(T, "x", recMapOpt(in)), ndo(T, "y", recMapOpt(in)), T.Key.Expr(), g.RefEq(T.Elem), cmp)))
+	}
 	out = append(out, h("VX_TV_C03_"+in.ID, "tv", fmt.Sprintf(
 		"\tx := %s\n\ty := %s\n\tvx.Observe(\"cmp\", %s(x, y))\n\tvx.Observe(\"cmpyx\", %s(y, x))\n", ndo(T, "x", recMapOpt(in)), ndo(T, "y", recMapOpt(in)), cmp, cmp)))
 	return out
